@@ -1,6 +1,10 @@
 // dhcppool drives the real dhcp.Pool (pkg/dhcp/pool.go): Allocate by MAC, Release BY VALUE,
 // MarkUnavailable, Reserve (a specific address for a MAC), Stats, on pools built by NewPool
 // (generateAvailableIPs).
+//
+// Alias probe: the harness keeps every slice Allocate returned and every slice it passed to Release, Reserve and
+// MarkUnavailable; `scribble <hex>` overwrites all of them with the bytes of that address (a caller reusing its
+// packet buffer, or normalising an address in place).  None of them is pool state: the operation changes nothing.
 package main
 
 import (
@@ -58,11 +62,13 @@ func randOp(r *rand.Rand, g geo, subs int) string {
 		return fmt.Sprintf("release %x", g.RandAddr(r))
 	case x < 68:
 		return fmt.Sprintf("mark %x", g.RandAddr(r))
-	case x < 86:
+	case x < 84:
 		// the requested address is drawn from the whole network and its surroundings: on these small
 		// pools it is, in turn, the client's own address, another client's, a free one, a declined one,
 		// the gateway, the network/broadcast address, a reserved one or one outside the network
 		return fmt.Sprintf("reserve %s %x", m, g.RandAddr(r))
+	case x < 89:
+		return fmt.Sprintf("scribble %x", g.RandAddr(r))
 	case x < 91:
 		return "list"
 	case x < 95:
@@ -128,6 +134,7 @@ func exhaustive(emit func([]string)) {
 			}
 		}
 		// out-of-range requests (network address, one beyond the network) and read-only operations
+		alpha = append(alpha, fmt.Sprintf("scribble %x", first+1))
 		all := append(append([]string{}, alpha...), fmt.Sprintf("reserve m1 %x", g.Net),
 			fmt.Sprintf("release %x", g.Net+uint32(g.Span())), fmt.Sprintf("mark %x", g.Net+uint32(g.Span())), "stats", "list")
 		var rec func(ab, prefix []string, depth int)
@@ -146,7 +153,18 @@ func exhaustive(emit func([]string)) {
 	}
 }
 
-type run struct{ p *dhcp.Pool }
+type run struct {
+	p *dhcp.Pool
+	// every slice the pool handed out or was handed
+	kept []net.IP
+}
+
+func (r *run) keep(ip net.IP) net.IP {
+	if ip != nil {
+		r.kept = append(r.kept, ip)
+	}
+	return ip
+}
 
 func (comp) NewRun() hx.Run { return &run{} }
 func (r *run) Close()       {}
@@ -176,6 +194,7 @@ func (r *run) Do(op string) string {
 			return "invalid"
 		}
 		r.p = p
+		r.kept = nil
 		return "ok"
 	}
 	if r.p == nil {
@@ -190,27 +209,39 @@ func (r *run) Do(op string) string {
 			}
 			return "error " + err.Error()
 		}
-		return "ok " + flx.Hex4(ip)
+		return "ok " + flx.Hex4(r.keep(ip))
+	case f[0] == "scribble" && len(f) == 2:
+		ip, ok := flx.ParseHex4(f[1])
+		if !ok {
+			return "badop"
+		}
+		for _, k := range r.kept {
+			if len(k) >= 4 {
+				copy(k[len(k)-4:], ip)
+			}
+		}
+		r.kept = nil
+		return "ok"
 	case f[0] == "release" && len(f) == 2:
 		ip, ok := flx.ParseHex4(f[1])
 		if !ok {
 			return "badop"
 		}
-		r.p.Release(ip)
+		r.p.Release(r.keep(ip))
 		return "ok"
 	case f[0] == "mark" && len(f) == 2:
 		ip, ok := flx.ParseHex4(f[1])
 		if !ok {
 			return "badop"
 		}
-		r.p.MarkUnavailable(ip)
+		r.p.MarkUnavailable(r.keep(ip))
 		return "ok"
 	case f[0] == "reserve" && len(f) == 3 && strings.HasPrefix(f[1], "m"):
 		ip, ok := flx.ParseHex4(f[2])
 		if !ok {
 			return "badop"
 		}
-		return strconv.FormatBool(r.p.Reserve(mac(f[1]), ip))
+		return strconv.FormatBool(r.p.Reserve(mac(f[1]), r.keep(ip)))
 	case f[0] == "list" && len(f) == 1:
 		alloc, _, _ := r.p.SnapshotForVerif()
 		type kv struct {
